@@ -22,7 +22,7 @@
 From Coq Require Import Ascii String List Bool ZArith NArith.
 From PTBase Require Import Exn PyStr PyNum PyVal Wire.
 From PTModel Require Import Fortran.
-From P Require Import Model Table Reader TableT2 SetT2 FileT2 CodecT2 CheckT2 Witness2 TableAUT FileAUT CheckAUT Witness3.
+From P Require Import Model Table Reader TableT2 SetT2 FileT2 CodecT2 CheckT2 Witness2 TableAUT FileAUT CheckAUT Witness3 LoopG FileG FileTP CodecTP.
 Import ListNotations.
 Open Scope char_scope.
 
@@ -114,7 +114,8 @@ Fixpoint span_tag (c : ascii) (l : list tl_t) : list str * list tl_t :=
   end.
 Definition table_name (c : ascii) : option str :=
   if ceqb c "E" then Some (s2l "element") else if ceqb c "C" then Some (s2l "connection")
-  else if ceqb c "P" then Some (s2l "primary") else if ceqb c "G" then Some (s2l "generation") else None.
+  else if ceqb c "P" then Some (s2l "primary") else if ceqb c "G" then Some (s2l "generation")
+  else if ceqb c "1" then Some (elem_n 1) else if ceqb c "2" then Some (elem_n 2) else if ceqb c "3" then Some (elem_n 3) else None.
 Fixpoint parse_more (fuel : nat) (l : list tl_t) : list (list str * str) * list tl_t :=
   match fuel with
   | O => ([], l)
@@ -235,6 +236,41 @@ Definition why_out (sm : sim) (sets : list pset) : str :=
           end
       end
   end.
+Definition why_tp (sets : list pset) : str :=
+  match sets with
+  | [] => s2l "no-result-set"
+  | x0 :: more =>
+      match find_false set_okbP sets 0 with
+      | Some k => s2l "set_ok " ++ show_nat k
+      | None =>
+          match read_title_T2 (file_from sets) with
+          | Raise _ => s2l "title"
+          | Ok title =>
+              match find_false (fun t => match tshape_check TPLUS title t with Some _ => true | None => false end) (set_tables x0) 0 with
+              | Some j => s2l "table_shape " ++ show_nat j
+              | None =>
+                  match shapes TPLUS title (set_tables x0) with
+                  | None => s2l "shapes"
+                  | Some Ts =>
+                      match find_false struct_okb Ts 0 with
+                      | Some j => s2l "struct " ++ show_nat j
+                      | None =>
+                          let names := map p_name (set_tables x0) in
+                          if negb (nodupb str_eqb names) then s2l "names-repeat"
+                          else if negb (str_eqb (p_name (ps_first x0)) n_element) then s2l "first-not-element"
+                          else match find_false (tp_like_b names) sets 0 with
+                               | Some k => s2l "set_like " ++ show_nat k
+                               | None => match find_false (fun x => forall2b tlaterb Ts (set_tables x)) more 1 with
+                                         | Some k => s2l "later_tables " ++ show_nat k
+                                         | None => s2l "?"
+                                         end
+                               end
+                      end
+                  end
+              end
+          end
+      end
+  end.
 Fixpoint lines_eqb (a b : list str) : bool :=
   match a, b with [], [] => true | x :: a', y :: b' => str_eqb x y && lines_eqb a' b' | _, _ => false end.
 Definition run_fchk (sm tags : str) (lines : list str) : str :=
@@ -243,10 +279,10 @@ Definition run_fchk (sm tags : str) (lines : list str) : str :=
   | None => s2l "OUT parse"
   | Some sets =>
       if negb (lines_eqb (file_from sets) file) then s2l "OUT render-differs"
-      else match file_check (parse_sim sm) sets with
+      else match (if sim_eqb (parse_sim sm) TPLUS then tp_check sets else file_check (parse_sim sm) sets) with
            | Some (title, Ts) => flatten ([s2l "INCLASS sets="; show_nat (length sets); s2l " tables="; show_nat (length Ts); s2l " rows="]
                                           ++ show_nats (map (fun T => length (lt_rows T)) Ts))
-           | None => s2l "OUT " ++ why_out (parse_sim sm) sets
+           | None => s2l "OUT " ++ (if sim_eqb (parse_sim sm) TPLUS then why_tp sets else why_out (parse_sim sm) sets)
            end
   end.
 
@@ -304,10 +340,10 @@ Definition why_aout (sets : list aset) : str :=
   match sets with
   | [] => s2l "no-result-set"
   | x0 :: more =>
-      match find_false aset_okb sets 0 with
+      match find_false aset_okb2 sets 0 with
       | Some k => s2l "aset_ok " ++ show_nat k
       | None =>
-          if negb (forallb no_shortb (afile sets)) then s2l "short-output"
+          if negb (scan_check sets) then s2l "stretch-between-result-sets-is-not-short-blocks"
           else if negb (stops_okb sets) then s2l "a-table-keyword-follows-the-last-table"
           else match find_false (fun t => match ashape_check t with Some _ => true | None => false end) (aset_tables x0) 0 with
                | Some j => s2l "table_shape " ++ show_nat j
